@@ -49,6 +49,13 @@ CLAIMED["C19"] = (
     "DESIGN.md §3 C19",
 )
 
+CLAIMED["C20"] = (
+    "sign/shape abstract interpretation of Lanelet._compute_polyline_cumsum_dist (facts: non-negative, first entry zero, Euclidean norm of consecutive differences, propagated through np.diff/square/sum/sqrt/append/amin/cumsum and the column-filling loop); structural recognisers with linear index forms for the interpolation and merge code; syntax-directed dominance, per-path filing counts and list-alignment rules on the two route searches",
+    "Decides: the cumulative distance is cumsum of a vector proven non-negative with first entry 0 whose entries are recognised as |v[i+1]-v[i]| of the centre line (so it starts at 0, never decreases, ends at the polyline length); interpolate_position uses one index and one ratio (s-d[i])/(d[i+1]-d[i]) for all three polylines with weights (1-r), r on vertices i, i+1 of the matching polyline, found from searchsorted-1 moving forward only while d[i] > s, under an asserted 0 <= s <= length; merge_lanelets cuts all three polylines of the successor at one joint index (1 only if end and start vertex coincide), predecessor first, same boundary with same boundary, constructor roles preserved; in both range searches every extension p+[x] is dominated by x not in p, x != start and length < range, the first frontier is exactly the direct links, candidates are links of the last element, every (path, candidate) control path files exactly once, lists stay aligned, the frontier is rebuilt from an empty list each round (strictly longer loop-free paths: termination on cyclic networks), and both searches have the same abstract signature. Not decided: the interpolation and length values as numbers, floating-point behaviour exactly at vertices.",
+    "Trusts numpy semantics of the modelled functions and that lanelet ids identify lanelets uniquely (C09).",
+    "DESIGN.md §3 C20",
+)
+
 CLAIMED["C09"] = (
     "ast pairing analysis of Scenario: id paths reserved per add_objects branch vs released per removal form (single/list), containment guards by syntax-directed dominance, ownership (who may drop / touch _id_set), atomic reservation, counter monotonicity",
     "Per-operation invariant argument that covers every history: each add branch reserves the id paths of the object it stores in one all-or-nothing step before storing; each removal form releases exactly those paths and only under a containment guard; only designated functions drop objects or touch the id pool; replacing the network releases the old ids; the counter only grows and generate_object_id folds in max(_id_set). Decided for all 9 object kinds and 5 removal functions.",
